@@ -6,12 +6,14 @@
    one reported result, projected to small integers by the driver:
 
      Pair       run chrom i j p mav F=<<phasing of file i, of file j>> (Compare.tla records)
+                V = <<variant kinds of file i, of file j>>: V[f][s] names the variant (REF and ALT strings) that file f
+                       carries at the position of site s; different numbers = different variants at the same POS
                 row  = [nblk cov pairs sw sfs sff ham dg]   "ALL INTERSECTION BLOCKS" columns of --tsv-pairwise
                 lrow = [pairs sw sfs sff ham dg]            "LARGEST INTERSECTION BLOCK" columns
                        (sw sfs sff ham in haplotype units = ploidy x printed value; -1 = not an integer)
                 aux (p = 2 only) bed = << <<site, next site>>, ... >> lines of --switch-error-bed for this pair,
                        agree = << <<site, 0/1>>, ... >> lines of --longest-block-tsv for this pair
-     Multi      run chrom F=<<all phasings>> hist = << << <<files not on file 1's side>>, count >>, ... >>  (--tsv-multiway)
+     Multi      run chrom F=<<all phasings>> V=<<variant kinds per file>> hist = << << <<files not on file 1's side>>, count >>, ... >>  (--tsv-multiway)
      RunFailed  run chrom exc where      run_compare raised
      Crashed    (runner) the worker died / timed out
 
@@ -30,6 +32,15 @@ Firsts(s) == [k \in DOMAIN s |-> s[k][1]]
 Seconds(s) == [k \in DOMAIN s |-> s[k][2]]
 CoreEq(r, q) == r.sw = q.sw /\ r.ham = q.ham /\ r.dg = q.dg /\ r.sfs + r.sff = q.sfs + q.sff
 
+(* The property speaks about the COMMON variants of the compared files.  A variant is a position together with its
+   REF and ALT alleles: a site at which the compared files carry different variants (same POS, another ALT base, an
+   indel instead of an SNV, ...) is a variant of neither file's partner, so for the comparison it is absent.
+   OnCommon(F, V) = the phasings restricted to the sites at which all compared files carry the same variant. *)
+Absent == [b |-> 0, a |-> << >>]
+SameVariant(V, s) == \A f \in DOMAIN V : V[f][s] = V[1][s]
+OnCommon(F, V) == TLCEval([f \in DOMAIN F |->
+                      TLCEval([s \in DOMAIN F[f] |-> IF SameVariant(V, s) THEN [b |-> F[f][s].b, a |-> F[f][s].a] ELSE Absent])])
+
 (* mem = the Pair/Multi lines of the current tid and chromosome seen so far (the driver emits both runs
    of one chromosome consecutively); Fresh: e starts a new tid or chromosome *)
 Fresh(e) == e.seq = 1 \/ mem = << >> \/ mem[1].chrom # e.chrom
@@ -39,7 +50,7 @@ Twin(e) == { k \in Earlier(e, "Pair", 0) : mem[k].i = e.i /\ mem[k].j = e.j }
 
 (* run 1 result e against its run 0 twin o (same chromosome, same pair of files) *)
 JudgeTwin_(e, o, P, nLongest) ==
-    /\ Check(e, "HarnessOrbit", SameUpToLabels(o.F[1], e.F[1], P) /\ SameUpToLabels(o.F[2], e.F[2], P))
+    /\ Check(e, "HarnessOrbit", SameUpToLabels(o.F[1], e.F[1], P) /\ SameUpToLabels(o.F[2], e.F[2], P) /\ o.V = e.V)
     /\ Check(e, "PermutationInvariance",
              /\ e.row.nblk = o.row.nblk /\ e.row.cov = o.row.cov /\ e.row.pairs = o.row.pairs
              /\ CoreEq(e.row, o.row)
@@ -84,24 +95,26 @@ JudgePairT_(e, F, P, B, rep, t, L, twin) ==
     /\ (IF e.run = 1 /\ twin # {} THEN JudgeTwin_(e, mem[CHOOSE k \in twin : TRUE], P, Cardinality(L)) ELSE TRUE)
 JudgePairR_(e, F, P, B, rep) == JudgePairT_(e, F, P, B, rep, Totals_(B, rep), LongestOf(B), Twin(e))
 JudgePairB_(e, F, P, B) == JudgePairR_(e, F, P, B, Reports(F, B, P))
-JudgePair(e) == JudgePairB_(e, e.F, e.p, Blocks(e.F))
+JudgePairF_(e, F) == JudgePairB_(e, F, e.p, Blocks(F))
+JudgePair(e) == JudgePairF_(e, OnCommon(e.F, e.V))
 
 HistSet(h) == { << Rng(h[k][1]), h[k][2] >> : k \in DOMAIN h }
 SeparatingRep(hs, i, j) == SumOver(hs, [x \in hs |-> IF (i \in x[1]) # (j \in x[1]) THEN x[2] ELSE 0])
 
 JudgeMultiTwin_(e, o, hs) ==
-    /\ Check(e, "HarnessOrbit", \A f \in DOMAIN e.F : SameUpToLabels(o.F[f], e.F[f], 2))
+    /\ Check(e, "HarnessOrbit", (\A f \in DOMAIN e.F : SameUpToLabels(o.F[f], e.F[f], 2)) /\ o.V = e.V)
     /\ Check(e, "PermutationInvariance", hs = HistSet(o.hist))
 JudgeMultiH_(e, F, B, h, hs, MP, twin) ==
     /\ Check(e, "MultiwayIsDefinition", hs = { <<sp, h[sp]>> : sp \in DOMAIN h } /\ Cardinality(hs) = Len(e.hist))
     /\ Check(e, "MultiwaySumsToPairs", SumOver(hs, [x \in hs |-> x[2]]) = Cardinality(MP))
     /\ Check(e, "MultiwayConsistentWithPairwise",
              \A k \in Earlier(e, "Pair", e.run) :
-                 Blocks(mem[k].F) = B => 2 * SeparatingRep(hs, mem[k].i, mem[k].j) = mem[k].row.sw)
+                 Blocks(OnCommon(mem[k].F, mem[k].V)) = B => 2 * SeparatingRep(hs, mem[k].i, mem[k].j) = mem[k].row.sw)
     /\ (IF e.run = 1 /\ twin # {} THEN JudgeMultiTwin_(e, mem[CHOOSE k \in twin : TRUE], hs) ELSE TRUE)
 JudgeMultiP_(e, F, B, MP) == JudgeMultiH_(e, F, B, MultiHist_(MP), HistSet(e.hist), MP, Earlier(e, "Multi", 0))
 JudgeMultiB_(e, F, B) == JudgeMultiP_(e, F, B, MultiPairs_(F, B))
-JudgeMulti(e) == JudgeMultiB_(e, e.F, Blocks(e.F))
+JudgeMultiF_(e, F) == JudgeMultiB_(e, F, Blocks(F))
+JudgeMulti(e) == JudgeMultiF_(e, OnCommon(e.F, e.V))
 
 Judge(e) ==
     CASE e.ev = "Pair"      -> JudgePair(e)
